@@ -3,6 +3,8 @@
 // abstract-protocol acceptor (coq/RaftAbs/extract/driver.ml).  Field renaming only.
 //
 //	raftabs -seed S -n N -events E -out FILE [-storage mem] [-profile P] [-from I]
+//	raftabs -crashpoints -seed S -n N -events E -out FILE   (every step/ready event of N base schedules followed by a
+//	                                                  crash of that node, a restart and 150 more generated events)
 //	raftabs -json trace.jsonl... -out FILE        (flatten traces written by raftsim -trace)
 //
 // Line format (tab separated):
@@ -29,6 +31,7 @@ import (
 	"encoding/json"
 	"flag"
 	"fmt"
+	"math/rand"
 	"os"
 	"strings"
 
@@ -125,6 +128,7 @@ func main() {
 	storage := flag.String("storage", "mem", "mem | rocks-mem | rocks-pebble")
 	profile := flag.String("profile", "", "force a generator profile")
 	jsonMode := flag.Bool("json", false, "flatten JSONL trace files given as arguments")
+	cpMode := flag.Bool("crashpoints", false, "crash at every step/ready event of the base schedules")
 	flag.Parse()
 	f, err := os.Create(*out)
 	if err != nil {
@@ -166,6 +170,31 @@ func main() {
 	}
 	hist := map[string]int{}
 	recs := 0
+	if *cpMode {
+		ntr := 0
+		for i := *from; i < *from+*n; i++ {
+			s, r := raftdrv.PlanSchedule(*seed, i, *events, *storage, *profile)
+			dir, _ := os.MkdirTemp("", "raftabs")
+			base, _, _ := raftdrv.RunGenerated(s, r, dir, func(rec *raftdrv.Record) {})
+			os.RemoveAll(dir)
+			for p := 0; p < len(base); p++ {
+				ev := base[p]
+				if ev.N == 0 || (ev.K != "ready" && ev.K != "step") {
+					continue
+				}
+				rng2 := rand.New(rand.NewSource(*seed*7919 + int64(i)*104729 + int64(p)))
+				dir, _ := os.MkdirTemp("", "raftabs")
+				fmt.Fprintf(w, "T\tcp-%d-%d-%d\t%d\t%d\t%s+crashpoint\n", *seed, i, p, *seed, i, s.Profile)
+				raftdrv.RunPrefixThenGenerate(s, base[:p+1], []raftdrv.Event{{K: "crash", N: ev.N}, {K: "restart", N: ev.N}}, rng2, 150, dir,
+					func(rec *raftdrv.Record) { recs++; emit(w, rec) })
+				fmt.Fprintf(w, "Z\n")
+				os.RemoveAll(dir)
+				ntr++
+			}
+		}
+		fmt.Printf("raftabs crashpoints traces=%d records=%d\n", ntr, recs)
+		return
+	}
 	for i := *from; i < *from+*n; i++ {
 		s, r := raftdrv.PlanSchedule(*seed, i, *events, *storage, *profile)
 		dir, _ := os.MkdirTemp("", "raftabs")
